@@ -152,6 +152,9 @@ class Ord(Tok):
         return self.rank < other.rank
 
 
+NEAR = 1e-3
+
+
 class Gap(Tok):
     """difference of two ordered values: only its sign and whether it is zero are meaningful (mag is the rank difference, used to place
     affine combinations inside an interval).  A non-zero gap is assumed to exceed every tolerance it is compared with (distinct knots
@@ -199,9 +202,10 @@ def order_compare(l, r, op):
         if l <= lo:
             return type(op) in (ast.Lt, ast.LtE)
         return None
-    # gap vs a (small, positive) tolerance or zero: a non-zero gap exceeds it
+    # gap vs a (small, positive) tolerance or zero: a non-zero gap exceeds it - unless the two values are *near* each other (ranks that
+    # differ by less than NEAR stand for values that differ by round-off only, i.e. by less than every tolerance)
     def gapval(g):
-        return g.sign * 10 ** 9
+        return g.sign * (10 ** -12 if 0 < abs(g.mag) < NEAR else 10 ** 9)
     if isinstance(l, Gap) and isinstance(r, (int, float)) and not isinstance(r, bool):
         return ops[type(op)](gapval(l), r)
     if isinstance(r, Gap) and isinstance(l, (int, float)) and not isinstance(l, bool):
@@ -800,6 +804,15 @@ class SK(object):
         return list(self.comp(e.generators, env, lambda en: self.ev(e.elt, en)))
 
     e_GeneratorExp = e_ListComp
+
+    def e_DictComp(self, e, env):
+        out = {}
+        for k_, v_ in self.comp(e.generators, env, lambda en: (self.ev(e.key, en), self.ev(e.value, en))):
+            out[k_] = v_
+        return out
+
+    def e_SetComp(self, e, env):
+        return set(self.comp(e.generators, env, lambda en: self.ev(e.elt, en)))
 
     def e_JoinedStr(self, e, env):
         return ''
